@@ -22,6 +22,8 @@ def match_slot(exp, slot):
         return slot["k"] in SLOT_KINDS
     if k in ("empty", "err"):
         return slot["k"] == k
+    if k == "term":
+        return match_term(exp, slot)
     if k == "int":
         if slot["k"] != "num" or slot.get("bits") != exp["bits"]:
             return False
@@ -75,3 +77,32 @@ def failure_kind(slot, step):
     if slot["k"] == "err":
         return "error"
     return "wrong"
+
+
+def _rate(ref):
+    from vlib import config_json
+    if "q" in ref:
+        return float(q_to_fraction(ref["q"]))
+    return float(config_json()["currency_rates"][ref["cfg"]])
+
+
+def term_value(t):
+    """value of a term over configured rates (spec/Money.tla), in double precision"""
+    r = _rate(t["num"]) / _rate(t["den"])
+    add, mul = float(q_to_fraction(t["add"])), float(q_to_fraction(t["mul"]))
+    if t["inv"]:
+        d = mul * r
+        return 0.0 if d == 0 else add / d
+    return add + mul * r
+
+
+def match_term(exp, slot):
+    if slot["k"] != exp["kind"]:
+        return False
+    if exp["kind"] == "money" and slot.get("cur") != exp["cur"]:
+        return False
+    x = fnum(slot)
+    if x is None:
+        return False
+    v = term_value(exp)
+    return abs(x - v) <= 1e-9 * max(abs(v), 1e-3)
